@@ -12,7 +12,7 @@ the clause is a theorem (`C13.splitRejoins_psl`) and the hypothesis disappears:
   string the parser accepts, both modes, **no hypothesis**;
 * `roundtrip_string_psl`, `accessors_string_psl` — URL → LRU → URL on the class `inClass`, both
   modes, **no host condition** (the former `pslHostOK`: "no leading / trailing dot" is gone since
-  FX-C12-EMPTYLABELS: stems.py emits the empty labels `split_suffix` does not return); C08's case
+  FX-C12-ed8ae90: stems.py emits the empty labels `split_suffix` does not return); C08's case
   clause for hosts with `%` is discharged too (`C13.splitCaseInv_psl`);
 * `fullRoundtripStringPsl` — the full statement on the class, formerly refuted by
   `http://a.co.uk./` (known finding KF-C12-2), is a theorem; the former witnesses are `example`s
@@ -64,7 +64,7 @@ trailing dots, a leading dot, `%`, bracketed literals —: the conclusions of
 `roundtrip_string_partial` (same `back` from the stems and from the serialised LRU;
 `urlsplit(back)` is exactly `expectedParts`; `url_to_lru(back) = url_to_lru(u)`), with NOTHING
 assumed about `split_suffix`: C08's re-join clause is `splitLaw_psl_class`, C08's case clause
-(plain hosts with `%`) is `C13.splitCaseInv_psl`.  No host condition is left (FX-C12-EMPTYLABELS). -/
+(plain hosts with `%`) is `C13.splitCaseInv_psl`.  No host condition is left (FX-C12-ed8ae90). -/
 theorem roundtrip_string_psl (lines : List Str) (sa : Bool) (u : Str) (hc : inClass u = true) :
     ∃ p back,
       urlParts u = some p ∧
@@ -114,7 +114,7 @@ def FullRoundtripStringPsl (lines : List Str) : Prop :=
     ∃ back, lruToUrl (lruStems (pslSplit lines) true p) = .ok back ∧
       reparse back = some (expectedParts (pslSplit lines) true p)
 
-/-- **the full statement holds** (it was refuted by `http://a.co.uk./` before FX-C12-EMPTYLABELS:
+/-- **the full statement holds** (it was refuted by `http://a.co.uk./` before FX-C12-ed8ae90:
 `fullRoundtripStringPsl_false`, known finding KF-C12-2) -/
 theorem fullRoundtripStringPsl (lines : List Str) : FullRoundtripStringPsl lines := by
   intro u p hc hp
